@@ -221,7 +221,7 @@ var expectedProbes = map[string][]string{
 	"C02": {"eof-before-warm-up", "counts-checked"},
 	"C03": {"eof-before-warm-up", "unequal-eof", "compared-with-canonical", "buffered-inputs"},
 	"C04": {"producer-stalled-quiescence-observations", "eof-at-cut-point", "suffix-altered-after-cut-point", "cases-proved-by-causality", "cases-with-late-positions", "prefix-runs-compared", "suffix-runs-compared"},
-	"C05": {"eof-before-warm-up", "action-streams-checked"},
+	"C05": {"eof-before-warm-up", "action-streams-checked", "decorator-warm-up-checked"},
 	"C09": {"calls-alive-at-once", "instance-reused-after-completed-call", "calls-compared-with-fresh-instance", "reports-compared-with-fresh-instance"},
 	"C10": {"read-issued-right-after-append-returned", "reads-compared-with-model", "getsince-boundaries", "backfilling-appends", "pre-existing-empty-file-A", "pre-existing-header-only-A"},
 	"C11": {"file-compared-with-model", "shorter-write-over-longer-file", "permuted-header-documents-read", "json-roundtrips", "fragmented-reads", "append-to-missing-file-rejected"},
